@@ -503,6 +503,9 @@ func canonValue(b *strings.Builder, v reflect.Value) {
 }
 
 func fmtFloat(f float64) string {
+	if f == 0 {
+		f = 0 // the sign of zero is not part of any documented value: -0 and +0 render alike
+	}
 	return fmt.Sprintf("%x", math.Float64bits(f)) + "/" + fmt.Sprintf("%g", f)
 }
 
